@@ -198,7 +198,7 @@ var syntaxEnvCache []cwf.Env
 func opPJSON(c Obj) J {
 	subject := cedar.NewPolicyFromAST((*pubast.Policy)(must(cwf.JToPolicy(c["policy"]))))
 	why := noTextForm(c["policy"])
-	if strings.HasPrefix(why, "unknown function") {
+	if strings.HasPrefix(why, "unknown function") || strings.HasPrefix(why, "method call without receiver") {
 		return Obj{"skip": "not a Cedar policy: " + why}
 	}
 	hasText := why == ""
